@@ -131,6 +131,68 @@ def leaf_correspondence(ctx):
     return _corr(ctx, cases, texts)
 
 
+GEN_DEFS = [
+    'Definition zl_eqb (a b : list Z) : bool := (Z.of_nat (length a) =? Z.of_nat (length b)) && '
+    'forallb (fun p => fst p =? snd p) (combine a b).',
+    'Definition rc_ok (t : list Z * list Z * list Z * list Z * Z * Z * (Z * Z * list Z * list Z * list Z)) : bool := '
+    "let '(lens, offs, exts, idxs, index, C, (n, off, offs2, exts2, idxs2)) := t in "
+    "let '(r, o, e, i) := dr_recalculate lens offs exts idxs index C in "
+    '(fst r =? n) && (snd r =? off) && zl_eqb o offs2 && zl_eqb e exts2 && zl_eqb i idxs2.',
+    'Fixpoint rc_bad (k : nat) (cs : list (list Z * list Z * list Z * list Z * Z * Z * (Z * Z * list Z * list Z * list Z))) '
+    ': list nat := match cs with [] => [] | c :: r => if rc_ok c then rc_bad (S k) r else k :: rc_bad (S k) r end.',
+]
+
+
+def translated_correspondence(ctx):
+    """Gen/GenObj.v dr_recalculate (the translated source) against the real method from arbitrary
+    restart indices with arbitrary (stale) cached values in the suffix: validates the translator's
+    object-list encoding on exactly the function the Pack theorems are transported to."""
+    from pycdlib import dr
+    rng = ctx.rng
+    cases, texts = [], []
+    for _ in range(250 if ctx.tier == 'quick' else 2500):
+        C = rng.choice((8, 12, 64, LBS))
+        alpha = {8: (1, 2, 3, 4, 8), 12: (2, 4, 6, 12), 64: (8, 10, 16, 30, 32, 64), LBS: (34, 40, 44, 48, 100, 228, 254)}[C]
+        lens = [rng.choice(alpha) for _ in range(rng.randrange(0, 60))]
+        if C == LBS and rng.random() < 0.5:
+            lens = [34, 34] + [44] * 45 + lens
+        index = rng.randrange(0, len(lens) + 1)
+        parent = dr.DirectoryRecord.__new__(dr.DirectoryRecord)
+        parent.children = [_Child(n) for n in lens]
+        dr.DirectoryRecord._recalculate_extents_and_offsets(parent, 0, C)
+        for k, c in enumerate(parent.children):      # stale values: anything, also before `index`
+            if k >= index or rng.random() < 0.1:
+                c.extents_to_here = rng.randrange(0, 9)
+                c.offset_to_here = rng.randrange(0, C + 1)
+                c.index_in_parent = rng.randrange(0, 99)
+        before = ([c.offset_to_here for c in parent.children], [c.extents_to_here for c in parent.children],
+                  [c.index_in_parent for c in parent.children])
+        n, off = dr.DirectoryRecord._recalculate_extents_and_offsets(parent, index, C)
+        after = ([c.offset_to_here for c in parent.children], [c.extents_to_here for c in parent.children],
+                 [c.index_in_parent for c in parent.children])
+        cases.append({'C': C, 'lens': lens, 'index': index, 'impl': [n, off]})
+        texts.append('(%s, %s, %s, %s, %s, %s, (%s, %s, %s, %s, %s))' % (
+            common.zlist(lens), common.zlist(before[0]), common.zlist(before[1]), common.zlist(before[2]),
+            z(index), z(C), z(n), z(off), common.zlist(after[0]), common.zlist(after[1]), common.zlist(after[2])))
+        ctx.case(('gen', C, len(lens), index), index > 0)
+    name = 'Gen.dr_recalculate (translated) vs DirectoryRecord._recalculate_extents_and_offsets'
+    bad, err = common.coq_bad_cases('packgen', ['From PV.Base Require Import Prim Upd.', 'From PV.Gen Require Import GenObj.'],
+                                    GEN_DEFS, 'list Z * list Z * list Z * list Z * Z * Z * (Z * Z * list Z * list Z * list Z)',
+                                    texts, 'rc_bad 0', shard=250)
+    if bad is None:
+        ctx.broken.append({'name': 'correspondence:' + name, 'summary': 'model evaluation failed: ' + err})
+        ctx.cov['correspondences'][name] = {'cases': len(cases), 'disagreements': 'evaluation failed'}
+        return None
+    ctx.cov['traces_validated_against_impl'] += len(cases) - len(bad)
+    ctx.cov['correspondences'][name] = {'cases': len(cases), 'disagreements': len(bad)}
+    for i in bad[:3]:
+        ctx.broken.append({'name': 'correspondence:' + name,
+                           'summary': 'the translation of dr.py _recalculate_extents_and_offsets and the real method disagree '
+                                      '(%d of %d cases): translator defect or unsupported source change' % (len(bad), len(cases)),
+                           'case': cases[i]})
+    return bad
+
+
 def _corr(ctx, cases, texts):
     bad, err = common.coq_bad_cases('packleaf', ['From PV.Model Require Import Pack.'], [],
                                     '(Z * list Z * Z * Z * list (Z * Z))', texts, 'bad_cases 0', shard=400)
